@@ -209,6 +209,16 @@ def run(ctx):
     for sim in SIMS:
         for k in range(per):
             c = allsims.gen_case(ctx.rng, sim)
+            if k % 12 == 5:
+                # an EMPTY request (no initially infected node; any container kind), with or without initially
+                # recovered nodes: the epidemic that starts is "everybody susceptible except the recovered", one row
+                c["init"] = dict(kind="list", nodes=[])
+                c["full"] = (k // 12) % 2 == 1
+                if sim in allsims.HAS_RECS and (k // 24) % 2 == 0 and c["n"] >= 2:
+                    c["recs"] = sorted(ctx.rng.sample(range(c["n"]), ctx.rng.randint(1, min(2, c["n"] - 1))))
+                elif sim in allsims.HAS_RECS:
+                    c["recs"] = []
+                ctx.count("%s:empty-request%s" % (sim, "+recs" if c.get("recs") else ""))
             if sim == "fast_nonMarkov_SIR":
                 # zero delays/durations make later events simultaneous with tmin; "the state at tmin" is then not
                 # the request in the time-collapsed summary.  C05 is about the request, so keep delays positive here
